@@ -87,9 +87,14 @@ def expect_of(at_fetch, cand, st):
             "tombKind": tf["kind"], "tomb": sorted(tf["s"])}
 
 
-def behaviour_to_steps(states, model, fail_modes):
+DROPS = {"left": 0}
+
+
+def behaviour_to_steps(states, model, fail_modes, complete=False):
     """[(label, state)] of RFC5011.tla -> replay steps (one per AutoTA run / restart).
-    A run cut off by the end of the behaviour is dropped."""
+    A run cut off by the end of the behaviour is dropped, or -- complete=True, directed
+    scenarios whose target state lies inside a run -- finished without further faults and
+    without a model prediction."""
     steps, cur = [], None
     nfail = 0
     for _, st in states:
@@ -114,6 +119,10 @@ def behaviour_to_steps(states, model, fail_modes):
             else:
                 cur["fetch"] = fail_modes[nfail % len(fail_modes)]
                 nfail += 1
+                if cur["fetch"] == "drop":       # a silent root costs the resolver's whole timeout
+                    if DROPS["left"] <= 0:
+                        cur["fetch"] = "servfail"
+                    DROPS["left"] -= 1
         elif a == "Authenticate" and ev.get("ok"):
             cur["z"] = zone_of(cur["_z"], model, ev["fetched"])
         elif a == "WriteTombstones":
@@ -127,6 +136,11 @@ def behaviour_to_steps(states, model, fail_modes):
             cur.pop("_z")
             steps.append(cur)
             cur = None
+    if cur is not None and complete and cur["fetch"] != "none":
+        for k in ("_atFetch", "_cand", "_z"):
+            cur.pop(k)
+        cur["exp"] = None
+        steps.append(cur)
     return steps
 
 
@@ -142,23 +156,67 @@ def parse_error_trace(out):
     return beh
 
 
-def replay(ctx, name, model, conf, behs, trace_out=None, forge=True, timeout=900):
-    inp = {"model": model, "configured": conf, "ageCap": AGECAP, "behaviours": behs, "forge": forge,
-           "traceOut": trace_out or ""}
-    res = ctx.go_driver("./c09", "TestReplay", inp, name=name, timeout=timeout)
+def suite(name, model, conf, behs, trace_out=None, forge=True):
+    return {"name": name, "model": model, "configured": conf, "ageCap": AGECAP, "behaviours": behs,
+            "forge": forge, "traceOut": trace_out or ""}
+
+
+def replay_suites(ctx, name, suites, timeout=1500):
+    """One driver process for all suites (they run side by side inside it)."""
+    res = ctx.go_driver("./c09", "TestReplay", {"suites": suites}, name=name, timeout=timeout)
     if res.get("skipped"):
-        raise vf.MachineryError("C09 replay %s skipped: %s" % (name, res["skipped"][:3]))
+        raise vf.MachineryError("C09 replay skipped: %s" % res["skipped"][:3])
     return res
 
 
-WITNESS_COUNTERS = ["refreshes_full_auth", "refreshes_unauthenticated", "earned_trusted",
-                    "quiescent_with_recorded_revocation", "missing_kept", "crashes",
-                    "failclosed_corrupt_tombstones"]
+def suite_counters(res, name):
+    pre = name + ":"
+    return {k[len(pre):]: v for k, v in res.get("counters", {}).items() if k.startswith(pre)}
 
 
-def sim_stage(ctx, cfg, num, depth, fail_modes, tag):
+WITNESS_COUNTERS = ["refreshes_full_auth", "refreshes_unauthenticated", "refreshes_revocation_only", "earned_trusted",
+                    "quiescent_with_recorded_revocation", "missing_kept", "removed_after_holddown", "reappeared",
+                    "crashes", "failclosed_corrupt_tombstones", "failclosed_double_write_failure"]
+
+DIRECTED = ["Pend29Present", "Promote31", "PendAbort", "Missing89Kept", "Missing91Gone", "Reappear", "RevokeFull",
+            "RevokeOnly", "RevokeOnlyBait", "RevokeOnlyPend", "DoubleFail", "DoubleFailNoRev", "MarkerMigrated",
+            "StaleConfig", "CrashBetween", "CrashBeforeWrites", "TombCorrupt", "StateCorrupt", "UnauthBait",
+            "RevokeNoSelfSig", "CollidingRevoke"]
+
+
+def tlc_many(ctx, cfgs, tag, par=6):
+    """Small TLC runs side by side (each is dominated by JVM start-up)."""
+    from concurrent.futures import ThreadPoolExecutor
+    ctx.spec_dir(MOD)
+
+    def one(cfg):
+        return cfg, ctx.tlc(MOD, SPEC, cfg, workers=2, timeout=600, heap="3g", must_pass=False, tag=tag, count=False)
+    with ThreadPoolExecutor(par) as ex:
+        return list(ex.map(one, cfgs))
+
+
+def directed_suites(ctx, runs):
+    """One shortest history per clause boundary: TLC's counter-example to the negated target."""
+    groups = {}
+    for name in DIRECTED:
+        cfg = "Dir_%s.cfg" % name
+        r = runs[cfg]
+        if r.violated != "D_" + name:
+            raise vf.MachineryError("directed scenario %s is not reachable in the model (vacuity)\n%s" % (
+                name, "\n".join(r.out.splitlines()[-15:])))
+        model, conf = cfg_constants(ctx, cfg)
+        steps = behaviour_to_steps(parse_error_trace(r.out), model, ["empty"], complete=True)
+        if not any(s["op"] == "run" for s in steps):
+            raise vf.MachineryError("directed scenario %s: counter-example not parsed" % name)
+        key = json.dumps([model, conf], sort_keys=True)
+        groups.setdefault(key, (model, conf, []))[2].append({"id": "dir:" + name, "steps": steps})
+    return [suite("directed%d" % i, m, c, b) for i, (m, c, b) in enumerate(groups.values())]
+
+
+def sim_suite(ctx, cfg, num, depth, fail_modes, tag):
     model, conf = cfg_constants(ctx, cfg)
-    raw = ctx.tlc_behaviours(MOD, SPEC, cfg, num=num, depth=depth, timeout=600)
+    DROPS["left"] = 12
+    raw = ctx.tlc_behaviours(MOD, SPEC, cfg, num=num, depth=depth, timeout=900)
     behs, seen = [], set()
     for i, b in enumerate(raw):
         steps = behaviour_to_steps(b, model, fail_modes)
@@ -172,20 +230,12 @@ def sim_stage(ctx, cfg, num, depth, fail_modes, tag):
     if len(behs) < max(3, num // 10):
         raise vf.MachineryError("simulation of %s produced only %d usable behaviours" % (cfg, len(behs)))
     trace = os.path.join(ctx.scratch, "c09_%s.ndjson" % tag)
-    res = replay(ctx, "replay_" + tag, model, conf, behs, trace_out=trace)
-    ctx.take_driver_result(res, "[%s] " % tag)
-    c = res.get("counters", {})
-    info = {"behaviours": len(behs), "runs": c.get("runs", 0), "drift": res["drift"],
-            "drift_notes": res.get("drift_notes", []), "counters": c}
-    ctx.cov["replay"]["sim_" + tag] = info
-    ctx.log("replay %s: %d behaviours, %d runs, drift %d, violations %d" % (
-        tag, len(behs), c.get("runs", 0), res["drift"], len(res.get("violations", []))))
-    return trace, res, len(behs)
+    return suite(tag, model, conf, behs, trace_out=trace)
 
 
 def trace_stage(ctx, trace, tcfg, nbeh, driver_violations, tag):
     nlines = sum(1 for _ in open(trace))
-    ok, r = ctx.tlc_trace(MOD, "Trace_RFC5011.tla", tcfg, trace, timeout=900)
+    ok, r = ctx.tlc_trace(MOD, "Trace_RFC5011.tla", tcfg, trace, timeout=1500)
     m = re.search(r"c09-lines-matched[^0-9]*(\d+)", r.out)
     matched = int(m.group(1)) if m else 0
     info = {"lines": nlines, "matched": matched}
@@ -211,11 +261,11 @@ def trace_stage(ctx, trace, tcfg, nbeh, driver_violations, tag):
     ctx.log("trace %s: %d of %d lines matched" % (tag, matched, nlines))
 
 
-def hypothesis_stage(ctx):
-    """Model-only counter-examples, concretised and run on the code."""
-    out = {}
+def hypothesis_suites(ctx, runs):
+    """Model-only counter-examples, to be concretised and run on the code."""
+    out, suites = {}, []
     for cfg, prop, want_key in HYPOTHESES:
-        r = ctx.tlc(MOD, SPEC, cfg, workers=4, timeout=600, heap="6g", must_pass=False, tag="hypothesis", count=False)
+        r = runs[cfg]
         name = cfg.replace(".cfg", "")
         if r.ok:
             out[name] = "model holds: hypothesis not produced by TLC"
@@ -228,16 +278,9 @@ def hypothesis_stage(ctx):
         steps = behaviour_to_steps(parse_error_trace(r.out), model, ["empty"])
         if not steps:
             raise vf.MachineryError("hypothesis %s: counter-example not parsed" % name)
-        res = replay(ctx, "hyp_" + name, model, conf, [{"id": name, "steps": steps}], forge=False, timeout=600)
-        keys = [v["key"] for v in res.get("violations", [])]
-        ctx.take_driver_result(res, "[%s, TLC counter-example to %s run on the code] " % (name, prop))
-        out[name] = {"tlc_counterexample_steps": len(steps), "reproduced_on_code": bool(keys), "keys": keys,
-                     "drift": res["drift"], "drift_notes": res.get("drift_notes", [])}
-        if keys and want_key not in keys:
-            ctx.log("hypothesis %s reproduced under key(s) %s (expected %s)" % (name, keys, want_key))
-        if not keys:
-            ctx.log("hypothesis %s: NOT reproduced on the code (model-only; spec or concretisation differs)" % name)
-    ctx.cov["replay"]["hypotheses"] = out
+        out[name] = {"tlc_counterexample_steps": len(steps), "violates_in_model": prop, "expected_key": want_key}
+        suites.append(suite(name, model, conf, [{"id": name, "steps": steps}], forge=False))
+    return out, suites
 
 
 def run(ctx, replay_path):
@@ -257,37 +300,127 @@ def run(ctx, replay_path):
     if replay_path:
         with open(replay_path) as f:
             rp = json.load(f)["replay"]
-        res = replay(ctx, "replay_file", rp["model"], rp["configured"], rp["behaviours"], forge=rp.get("forge", False))
-        ctx.take_driver_result(res, "[replay] ")
+        ctx.tlc(MOD, SPEC, "MC_Tiny.cfg", workers=4, timeout=600, heap="4g")
+        res = replay_suites(ctx, "replay_file", [suite(rp.get("name", "replay"), rp["model"], rp["configured"],
+                                                         rp["behaviours"], forge=rp.get("forge", False))])
+        ctx.take_driver_result(res, "")
         return
 
-    # 1. exhaustive model checking (clean configurations)
-    ctx.tlc(MOD, SPEC, "MC_Quick.cfg", workers=6, timeout=900, heap="8g")
-    if thorough:
-        ctx.tlc(MOD, SPEC, "MC_Thorough.cfg", workers=8, timeout=1500, heap="16g")
-        ctx.tlc(MOD, SPEC, "MC_Deep2.cfg", workers=8, timeout=1500, heap="16g")
-        for w in ("W_NeverEarned", "W_NeverRevAcc", "W_NeverRevOnly", "W_NeverFailClosedW", "W_NeverMissing",
-                  "W_NeverRemoved", "W_NeverReappear", "W_NeverMarkerKept", "W_NeverTombUsed"):
-            r = ctx.tlc(MOD, SPEC, "Wit_%s.cfg" % w, workers=4, timeout=600, heap="6g", must_pass=False,
-                        tag="witness", count=False)
-            if r.violated != w:
-                raise vf.MachineryError("vacuity: witness %s is not reachable in the quick configuration" % w)
+    from concurrent.futures import ThreadPoolExecutor
+    ctx.spec_dir(MOD)
+    hyp = os.environ.get("VERIF_C09_HYP", "1") != "0"
 
-    # 2 + 3. replay and trace validation
+    # 1. exhaustive model checking (clean configurations); runs beside stages 2-4, none of which
+    #    depends on its result
+    def model_checking():
+        if os.environ.get("VERIF_C09_MC", "1") == "0":      # development switch (mutation trials): the model
+            ctx.tlc(MOD, SPEC, "MC_Tiny.cfg", workers=2, timeout=600, heap="4g")   # check does not depend on /repo
+            return
+        r = ctx.tlc(MOD, SPEC, "MC_Quick.cfg", workers=6, timeout=900, heap="8g",
+                    args=["-coverage", "1"] if thorough else ())
+        if thorough:
+            dead = [a for a in r.zero_coverage() if not a.startswith(("W_", "D_"))]
+            if dead:
+                raise vf.MachineryError("vacuity: actions never taken in MC_Quick: %s" % dead)
+            ctx.tlc(MOD, SPEC, "MC_Thorough.cfg", workers=8, timeout=1500, heap="16g")
+            ctx.tlc(MOD, SPEC, "MC_Deep2.cfg", workers=8, timeout=1500, heap="16g")
+            wit = ["W_NeverEarned", "W_NeverRevAcc", "W_NeverRevOnly", "W_NeverFailClosedW", "W_NeverMissing",
+                   "W_NeverRemoved", "W_NeverReappear", "W_NeverMarkerKept", "W_NeverTombUsed"]
+            for cfg, r in tlc_many(ctx, ["Wit_%s.cfg" % w for w in wit], "witness", par=3):
+                if r.violated != cfg[4:-4]:
+                    raise vf.MachineryError("vacuity: witness %s is not reachable in the quick configuration" % cfg)
+
+    # 2. histories: directed scenarios and hypothesis counter-examples (small TLC runs side by side),
+    #    simulated behaviours of the clean configurations
+    sims = [("Sim_Clean.cfg", "Trace_Clean.cfg", "clean", 160 if not thorough else 1500)]
+    if thorough:
+        sims.append(("Sim_CleanAB.cfg", "Trace_CleanAB.cfg", "cleanAB", 1200))
+    fail_modes = ["empty", "servfail"] if not thorough else ["empty", "servfail", "empty", "servfail", "drop"]
+    small = ["Dir_%s.cfg" % n for n in DIRECTED] + ([h[0] for h in HYPOTHESES] if hyp else [])
+    pool = ThreadPoolExecutor(3)
+    f_mc = pool.submit(model_checking)
+    f_small = pool.submit(lambda: dict(tlc_many(ctx, small, "scenario", par=5)))
+    f_sims = pool.submit(lambda: [sim_suite(ctx, cfg, num, 110, fail_modes, tag) for cfg, tcfg, tag, num in sims])
+    try:
+        runs = f_small.result()
+        sim_suites = f_sims.result()
+    except BaseException:
+        pool.shutdown(wait=True)
+        raise
+    try:
+        stages_3_4(ctx, thorough, hyp, runs, sims, sim_suites)
+    finally:
+        try:
+            f_mc.result()
+        finally:
+            pool.shutdown()
+
+
+def stages_3_4(ctx, thorough, hyp, runs, sims, sim_suites):
+    suites = directed_suites(ctx, runs)
+    ndirected = len(suites)
+    suites += sim_suites
+    hyp_info, hyp_suites = hypothesis_suites(ctx, runs) if hyp else ({}, [])
+    suites += hyp_suites
+
+    # 3. spec -> code: everything in one driver process
+    res = replay_suites(ctx, "replay", suites)
+    ctx.take_driver_result(res, "")
+    clean_names = [s["name"] for s in suites[:ndirected + len(sims)]]
+    viol_by_suite = {}
+    for v in res.get("violations", []):
+        m = re.match(r"\[([^\]]*)\]", v.get("what", ""))
+        viol_by_suite.setdefault(m.group(1) if m else "?", []).append(v["key"])
     total = {}
-    nviol = 0
-    for cfg, tcfg, tag, num in (("Sim_Clean.cfg", "Trace_Clean.cfg", "clean", 160 if not thorough else 1500),
-                                ("Sim_CleanAB.cfg", "Trace_CleanAB.cfg", "cleanAB", 120 if not thorough else 1200)):
-        fail_modes = ["empty", "servfail"] if not thorough else ["empty", "servfail", "empty", "servfail", "drop"]
-        trace, res, nbeh = sim_stage(ctx, cfg, num, 110, fail_modes, tag)
-        nviol += len(res.get("violations", []))
-        for k, v in res.get("counters", {}).items():
+    for sname in clean_names:
+        c = suite_counters(res, sname)
+        for k, v in c.items():
             total[k] = total.get(k, 0) + v
-        trace_stage(ctx, trace, tcfg, nbeh, bool(res.get("violations")), tag)
+        nb = len([s for s in suites if s["name"] == sname][0]["behaviours"])
+        ctx.cov["replay"][sname] = {"behaviours": nb, "runs": c.get("runs", 0), "drift": c.get("drift", 0),
+                                    "violations": viol_by_suite.get(sname, []), "counters": c}
+        ctx.log("replay %s: %d behaviours, %d runs, drift %d, violations %s" % (
+            sname, nb, c.get("runs", 0), c.get("drift", 0), viol_by_suite.get(sname, [])))
+    ctx.cov["replay"]["drift_notes"] = res.get("drift_notes", [])
+    for name, info in hyp_info.items():
+        if isinstance(info, dict):
+            keys = viol_by_suite.get(name, [])
+            info["reproduced_on_code"] = bool(keys)
+            info["keys"] = keys
+            ctx.log("hypothesis %s (TLC counter-example to %s): %s" % (
+                name, info["violates_in_model"],
+                "REPRODUCED on the code as %s" % keys if keys else "not reproduced on the code (model-only)"))
+    ctx.cov["replay"]["hypotheses"] = hyp_info
+    clean_viol = any(viol_by_suite.get(n) for n in clean_names)
     missing = [k for k in WITNESS_COUNTERS if total.get(k, 0) == 0]
-    if missing and not nviol:
+    if missing and not clean_viol:
         raise vf.MachineryError("vacuous replay: the real executions never exercised %s" % missing)
 
-    # 4. hypotheses
-    if os.environ.get("VERIF_C09_HYP", "1") != "0":
-        hypothesis_stage(ctx)
+    # 4. code -> spec: the recorded executions of the simulated behaviours
+    for (cfg, tcfg, tag, num), st in zip(sims, suites[ndirected:ndirected + len(sims)]):
+        trace_stage(ctx, st["traceOut"], tcfg, len(st["behaviours"]), bool(viol_by_suite.get(tag)), tag)
+    if thorough and not viol_by_suite.get("clean"):
+        binding_selftest(ctx, suites[ndirected]["traceOut"], "Trace_Clean.cfg")
+
+
+def binding_selftest(ctx, trace, tcfg):
+    """The trace spec must reject a recorded execution with one observation falsified
+    (otherwise trace validation binds nothing)."""
+    lines = open(trace).read().splitlines()
+    for i, ln in enumerate(lines):
+        ev = json.loads(ln)
+        if ev["ev"] == "run" and ev["crash"] == -1 and ev["trusted"] == ["A"] and i > 20:
+            ev["trusted"] = ["A", "B"]
+            bad = trace + ".falsified"
+            with open(bad, "w") as f:
+                f.write("\n".join(lines[:i] + [json.dumps(ev)] + lines[i + 1:]) + "\n")
+            ok, r = ctx.tlc_trace(MOD, "Trace_RFC5011.tla", tcfg, bad, timeout=900)
+            m = re.search(r"c09-lines-matched[^0-9]*(\d+)", r.out)
+            matched = int(m.group(1)) if m else -1
+            if ok or matched > i:
+                raise vf.MachineryError("binding self-test: a falsified observation at trace line %d was accepted" % (i + 1))
+            ctx.cov["replay"]["binding_selftest"] = {"falsified_line": i + 1, "matched": matched,
+                                                     "rejected_by": r.violated or "no matching step"}
+            ctx.log("binding self-test: falsified line %d rejected (%s)" % (i + 1, r.violated or "no matching step"))
+            return
+    raise vf.MachineryError("binding self-test: no line to falsify")
